@@ -5,6 +5,7 @@ import json, subprocess
 ALL = ['C%02d' % i for i in range(1, 21)]
 TRACE = 'TLA+ level-A spec (Resonate.tla/Props.tla) checked exhaustively by TLC + TLC trace validation (ResonateTrace.tla) of executions recorded from the real kernel/coroutines/sqlite store driven by the ksim harness (controlled AIO: commit order, batching, ticks, faults, crashes)'
 CLAIMED = {
+ 'C14': dict(cat='model_checking', ref='6/C14', text='Search definitions (pattern, state mask, tags, newest first, page size, cursor iff full) checked exhaustively by TLC: following cursors returns exactly the matching set once each; real searches go through the real API helper and real JWT cursors, each page must be the level-A result on a commit-point state, traversals are checked for duplicates/completeness under concurrent mutations, forged cursors must be rejected.', tech=TRACE),
  'C01': dict(cat='model_checking', ref='6/C01', text='Write-once/immutability as TLA+ action properties: exhaustive on the bounded level-A model; every recorded commit (incl. each transaction inside a batch), reply and notification of seeded racing workloads with faults and crashes is checked by TLC against them.', tech=TRACE),
  'C02': dict(cat='model_checking', ref='6/C02', text='Linearizability by observed commit points: every state change of the real store must be the level-A effect of the owning request at its decision tick (or a no-op), every reply must be the level-A result at one of the request\'s commit points; whole bodies compared, TLC is the oracle.', tech=TRACE),
  'C03': dict(cat='model_checking', ref='6/C03', text='Declarative status tables of the statement checked by TLC against the operational spec for every reachable state and argument combination; the real create/complete coroutines are then validated against the spec on recorded traces incl. lost replies and racing retries.', tech=TRACE),
@@ -28,6 +29,7 @@ NOTE = {
  'C08': 'hand-off outcomes are scripted by the harness (ok/refused/transport error); router errors injected',
  'C09': 'single store connection',
  'C10': 'cron expressions of the */k-seconds family; robfig/cron is the trusted definition of an occurrence',
+ 'C14': 'ids and patterns from an alphabet without SQL LIKE metacharacters and of uniform case (SQLite LIKE is case-insensitive; the statement only defines *); completeness is checked for promise traversals',
  'C11': 'the cycle bound is generous (40 + 12 x rows); hand-offs succeed and no faults after clients stop',
 }
 REASONS = {p: 'check not built yet (work in progress; see DESIGN.md section 10 for the build order)' for p in ALL}
